@@ -137,6 +137,10 @@ func c05One(c *fw.Ctx, fi int, before string, o Op) {
 		c.Violation("stray-files", cs, fmt.Sprintf("`klog %s` left these files in the directory: %v", o.String(), names))
 		return
 	}
+	if r.Code == 0 && strings.TrimSpace(r.Err) != "" {
+		c.Violation("error-with-exit-0", cs, fmt.Sprintf("`klog %s` reported an error but the exit status is 0:\n%s", o.String(), strings.TrimSpace(r.Err)))
+		return
+	}
 	if r.Code != 0 {
 		c.Outcome("fails")
 		if after != before {
